@@ -1431,3 +1431,53 @@ def none_distinction_kept(ctx, rel, rule="R0.none-still-told-apart"):
                f"`{lost[0] if lost else ''}` was compared with None (None = not given) and is now only used by its truth or value: a legal falsy "
                "argument (False, 0, an empty container) is treated like a missing one", f.lineno)
     return n
+
+
+def equality_covers_state(ctx, rel, rule, classes, exempt=None):
+    """`a == b` for value objects: every attribute the constructor stores takes part in `__eq__`, as a requirement that the two
+    objects agree on it (`self.f == o.f` in a returned conjunction, `if self.f != o.f: return False`, `np.array_equal(self.f, o.f)`,
+    a property of the same name read instead of the attribute).  A field that equality does not look at makes two different objects
+    equal.  `exempt`: {(class, field): reason}"""
+    from .astutil import walk_local, param_names
+    from .facts import conjuncts, disjuncts, negate
+    import copy as _copy
+    exempt = exempt or {}
+    src = ctx.src(rel)
+    n = 0
+    for cls in classes:
+        init = src.func(f"{cls}.__init__")
+        eq = src.func(f"{cls}.__eq__")
+        other = param_names(eq)[1]
+        state = []
+        for st in ast.walk(init):
+            if isinstance(st, ast.Attribute) and isinstance(st.ctx, ast.Store) and isinstance(st.value, ast.Name) and st.value.id == "self" \
+                    and st.attr not in state:
+                state.append(st.attr)
+        reqs = []
+        for st in walk_local(eq):
+            if isinstance(st, ast.Return) and st.value is not None and not isinstance(st.value, ast.Constant):
+                reqs.extend(conjuncts(_copy.deepcopy(st.value)))
+            elif isinstance(st, ast.If) and not st.orelse and len(st.body) == 1 and isinstance(st.body[0], ast.Return) \
+                    and isinstance(st.body[0].value, ast.Constant) and st.body[0].value.value is False:
+                reqs.extend(negate(d) for d in disjuncts(st.test))
+        covered = set()
+        for r in reqs:
+            pair = None
+            if isinstance(r, ast.Compare) and len(r.ops) == 1 and isinstance(r.ops[0], ast.Eq):
+                pair = (r.left, r.comparators[0])
+            elif isinstance(r, ast.Call) and (call_name(r) or "").split(".")[-1] in ("array_equal", "array_equiv") and len(r.args) == 2 and not r.keywords:
+                pair = (r.args[0], r.args[1])
+            if pair is None:
+                continue
+            a, b = pair
+            if not (isinstance(a, ast.Attribute) and isinstance(b, ast.Attribute) and isinstance(a.value, ast.Name) and isinstance(b.value, ast.Name)):
+                continue
+            if {a.value.id, b.value.id} != {"self", other} or a.attr != b.attr:
+                continue
+            covered.add(a.attr.lstrip("_"))
+        missing = [f for f in state if f.lstrip("_") not in covered and (cls, f) not in exempt]
+        n += 1
+        ctx.ob(rule, rel, f"{cls}.__eq__", f"state {state}; compared {sorted(covered)}", not missing,
+               f"{cls}.__eq__ never requires the two objects to agree on {missing}: objects that differ there compare equal", eq.lineno)
+    ctx.floor("value-classes-with-equality", n, len(classes))
+    return n
